@@ -15,6 +15,7 @@ type TableSpec struct {
 	GSI     []IndexSpec
 	LSI     []IndexSpec
 	Dropped bool
+	PPR     bool
 }
 
 type IndexSpec struct {
@@ -351,6 +352,7 @@ func (g *HistGen) createTable(name string) {
 		}
 	}
 	op := &Op{Op: "createTable", Table: HexS(name), Key: keyDefOf(t.Hash, t.Range), PPR: g.r.Chance(80)}
+	t.PPR = op.PPR
 	op.TP = !op.PPR || g.r.Chance(30)
 	if !op.PPR && g.r.Chance(g.p.BadPct) {
 		op.TP = false // provisioned without throughput: rejected
@@ -1173,7 +1175,7 @@ func (g *HistGen) genMgmt() {
 				stray = append(g.genKey(t), KV{[]byte(ix.Hash[0]), AV{T: "N", V: []byte("5")}}, KV{[]byte("v"), S("1")})
 				g.ops = append(g.ops, &Op{Op: "put", Table: HexS(t.Name), Item: stray})
 			}
-			g.ops = append(g.ops, &Op{Op: "updateTable", Table: HexS(t.Name), Changes: []IndexChange{{Create: &IndexDef{Name: HexS(ix.Name), Key: *keyDefOf(ix.Hash, ix.Range), TP: true}}}})
+			g.ops = append(g.ops, &Op{Op: "updateTable", Table: HexS(t.Name), Changes: []IndexChange{{Create: &IndexDef{Name: HexS(ix.Name), Key: *keyDefOf(ix.Hash, ix.Range), TP: !t.PPR || g.r.Chance(40)}}}})
 			t.GSI = append(t.GSI, ix)
 			if stray != nil {
 				key := Item{stray[0]}
@@ -1443,6 +1445,15 @@ func (g *HistGen) Gen() []*Op {
 	if p.FinalObserve {
 		g.ops = append(g.ops, &Op{Op: "setFailure", F: "none", Legacy: g.r.Chance(40)})
 		g.observe()
+	}
+	// a few calls get a cancelled context: no operation of the fake observes its context
+	for _, op := range g.ops {
+		switch op.Op {
+		case "put", "update", "delete", "get", "query", "pages", "batchWrite", "batchGet", "describeTable", "updateTable", "transactWrite":
+			if g.r.Chance(3) {
+				op.Cancelled = true
+			}
+		}
 	}
 	return g.ops
 }
